@@ -19,6 +19,8 @@ package zog
 
 //@ spec pdest(ctx) = ctx.ValPtr.(*T)
 //@ spec absent(isZeroFunc, ctx) = bverdict(isZeroFunc, old(ctx.Data))
+//@ spec nopts(pts) = len(pts) == 0
+//@ spec reaches_tests(isZeroFunc, ctx, defaultVal, coercer) = (absent(isZeroFunc, ctx) && defaultVal != nil) || (!absent(isZeroFunc, ctx) && coerr(coercer, old(ctx.Data)) == nil)
 
 //@ spec ctxfootprint_doc(ctx) = true
 
@@ -26,24 +28,39 @@ package zog
 //@   requires p.wfctx(ctx)
 //@   requires[C05] entry_not_exited: !ctx.Exit
 //@   requires[C06] dest_matches: istype(ctx.ValPtr, *T) && ctx.ValPtr.(*T) != nil
+//@   requires[C19] dest_separate_from_schema: ctx.ValPtr.(*T) != catch && ctx.ValPtr.(*T) != defaultVal
 //@   requires coercer != nil && isZeroFunc != nil
 //@   requires[C06] coercer_matches: cotype(coercer) == tid(T)
 //@   requires[C06] tests_wf: forall(i, 0, len(tests), tests[i].Func != nil)
 //@   requires[C06] pts_wf: forall(i, 0, len(postTransforms), postTransforms[i] != nil)
-//@   modifies ctx.CanCatch, ctx.Exit, ctx.Test, *ctx.ValPtr.(*T), p.LC(ctx), tf_ran, keyof(String), when(istype(ctx.ExecCtx.Errors, *p.ErrsList), ctx.ExecCtx.Errors.(*p.ErrsList).List), when(istype(ctx.ExecCtx.Errors, *p.ErrsMap), ctx.ExecCtx.Errors.(*p.ErrsMap).M), anyelems(Ptr), mapsof(p.ZogIssueMap)
+//@   modifies ctx.CanCatch, ctx.Exit, ctx.Test, *ctx.ValPtr.(*T), p.recfp(ctx.ExecCtx), tf_ran
 //@   ensures[C05] cancatch_iff_catch: ctx.CanCatch == (catch != nil)
 //@   ensures[C02] rep: p.zrep(ctx.ExecCtx.Errors)
+//@   ensures[C04] absent_optional_skipped: absent(isZeroFunc, ctx) && defaultVal == nil && required == nil ==> tf_ran == old(tf_ran) && (nopts(postTransforms) ==> unchanged(p.LC(ctx)) && unchanged(*pdest(ctx)))
+//@   ensures[C04,C02] absent_required_one_issue: absent(isZeroFunc, ctx) && defaultVal == nil && required != nil && catch == nil ==> p.issued_from_test(ctx, required, box(old(*pdest(ctx)))) && tf_ran == old(tf_ran) && unchanged(*pdest(ctx))
+//@   ensures[C05,C04] absent_required_caught: absent(isZeroFunc, ctx) && defaultVal == nil && required != nil && catch != nil ==> unchanged(p.LC(ctx)) && tf_ran == old(tf_ran) && (nopts(postTransforms) ==> *pdest(ctx) == *catch)
+//@   ensures[C02] coerce_one_issue: !absent(isZeroFunc, ctx) && coerr(coercer, old(ctx.Data)) != nil && catch == nil ==> p.LC(ctx) == push(old(p.LC(ctx)), p.last(p.LC(ctx))) && p.last(p.LC(ctx)).Code == "coerce" && p.last(p.LC(ctx)).Err == coerr(coercer, old(ctx.Data)) && p.last(p.LC(ctx)).Value == old(ctx.Data) && tf_ran == old(tf_ran) && unchanged(*pdest(ctx))
+//@   ensures[C05] coerce_caught: !absent(isZeroFunc, ctx) && coerr(coercer, old(ctx.Data)) != nil && catch != nil ==> unchanged(p.LC(ctx)) && tf_ran == old(tf_ran) && (nopts(postTransforms) ==> *pdest(ctx) == *catch)
+//@   ensures[C01,C02,C04] every_test_runs: reaches_tests(isZeroFunc, ctx, defaultVal, coercer) && catch == nil ==> tf_ran == old(tf_ran) + len(tests)
+//@   ensures[C04,C03] default_value_used: absent(isZeroFunc, ctx) && defaultVal != nil && catch == nil && nopts(postTransforms) ==> *pdest(ctx) == old(*defaultVal)
+//@   ensures[C03] coerced_value_stored: !absent(isZeroFunc, ctx) && coerr(coercer, old(ctx.Data)) == nil && catch == nil && nopts(postTransforms) ==> *pdest(ctx) == coval(coercer, old(ctx.Data)).(T)
+//@   ensures[C05] catch_never_issues: catch != nil ==> unchanged(p.LC(ctx))
+//@   ensures[C05] catch_value_iff_failed: catch != nil && reaches_tests(isZeroFunc, ctx, defaultVal, coercer) && nopts(postTransforms) ==> *pdest(ctx) == ite(ctx.Exit, old(*catch), ite(absent(isZeroFunc, ctx), old(*defaultVal), coval(coercer, old(ctx.Data)).(T)))
+//@   ensures[C02] log_append_only: isprefix(old(p.LC(ctx)), p.LC(ctx))
 //@   loop rangeindex.loop#1
 //@     invariant p.wfctx(ctx)
 //@     invariant[C05] not_exited: !ctx.Exit
 //@     invariant[C01,C02] every_test_runs: tf_ran == old(tf_ran) + zz_i
 //@     invariant[C05] catch_silent: catch != nil ==> p.LC(ctx) == old(p.LC(ctx))
+//@     invariant[C02] log_append_only: isprefix(old(p.LC(ctx)), p.LC(ctx))
 
 // The deferred PostTransform runner of primitiveProcessor.
 //@ func primitiveProcessor$1()
 //@   requires p.wfctx(ctx) && destPtr != nil && box(destPtr) == ctx.ValPtr
 //@   requires[C06] pts_wf: forall(i, 0, len(postTransforms), postTransforms[i] != nil)
-//@   modifies ctx.Exit, *destPtr, p.LC(ctx), keyof(String), when(istype(ctx.ExecCtx.Errors, *p.ErrsList), ctx.ExecCtx.Errors.(*p.ErrsList).List), when(istype(ctx.ExecCtx.Errors, *p.ErrsMap), ctx.ExecCtx.Errors.(*p.ErrsMap).M), anyelems(Ptr), mapsof(p.ZogIssueMap)
+//@   modifies ctx.Exit, *destPtr, p.recfp(ctx.ExecCtx)
+//@   ensures[C05] catching_is_silent: ctx.CanCatch ==> unchanged(p.LC(ctx))
+//@   ensures[C02] log_append_only: isprefix(old(p.LC(ctx)), p.LC(ctx))
 //@   ensures[C12] skipped_after_issue: old(p.LC(ctx)) != empty() ==> unchanged(p.LC(ctx)) && unchanged(*destPtr) && unchanged(ctx.Exit)
 //@   ensures[C12] no_pts: len(postTransforms) == 0 ==> unchanged(p.LC(ctx)) && unchanged(*destPtr) && unchanged(ctx.Exit)
 //@   ensures[C02] rep: p.zrep(ctx.ExecCtx.Errors)
@@ -51,3 +68,49 @@ package zog
 //@     invariant p.wfctx(ctx) && box(destPtr) == ctx.ValPtr
 //@     invariant[C12] still_no_issue: p.LC(ctx) == empty()
 //@     invariant unchanged(ctx.Exit)
+//@     invariant unchanged(p.LC(ctx))
+
+// ---- the primitive pipeline in Validate mode: the twin of primitiveProcessor (C13)
+
+//@ spec vabsent(ctx) = p.gozero(box(old(*pdest(ctx))))
+
+//@ func primitiveValidator(ctx, tests, postTransforms, defaultVal, required, catch)
+//@   requires p.wfctx(ctx)
+//@   requires[C05] entry_not_exited: !ctx.Exit
+//@   requires[C06] dest_matches: istype(ctx.ValPtr, *T) && ctx.ValPtr.(*T) != nil
+//@   requires[C19] dest_separate_from_schema: ctx.ValPtr.(*T) != catch && ctx.ValPtr.(*T) != defaultVal
+//@   requires[C06] tests_wf: forall(i, 0, len(tests), tests[i].Func != nil)
+//@   requires[C06] pts_wf: forall(i, 0, len(postTransforms), postTransforms[i] != nil)
+//@   modifies ctx.CanCatch, ctx.Exit, ctx.Test, *ctx.ValPtr.(*T), p.recfp(ctx.ExecCtx), tf_ran
+//@   ensures[C05] cancatch_iff_catch: ctx.CanCatch == (catch != nil)
+//@   ensures[C02] rep: p.zrep(ctx.ExecCtx.Errors)
+//@   ensures[C04] absent_optional_skipped: vabsent(ctx) && defaultVal == nil && required == nil ==> tf_ran == old(tf_ran) && (nopts(postTransforms) ==> unchanged(p.LC(ctx)) && unchanged(*pdest(ctx)))
+//@   ensures[C04,C02] absent_required_one_issue: vabsent(ctx) && defaultVal == nil && required != nil && catch == nil ==> p.issued_from_test(ctx, required, box(old(*pdest(ctx)))) && tf_ran == old(tf_ran) && unchanged(*pdest(ctx))
+//@   ensures[C05,C04] absent_required_caught: vabsent(ctx) && defaultVal == nil && required != nil && catch != nil ==> unchanged(p.LC(ctx)) && tf_ran == old(tf_ran) && (nopts(postTransforms) ==> *pdest(ctx) == *catch)
+//@   ensures[C01,C02,C04,C13] every_test_runs: (!vabsent(ctx) || defaultVal != nil) && catch == nil ==> tf_ran == old(tf_ran) + len(tests)
+//@   ensures[C04,C13] default_value_used: vabsent(ctx) && defaultVal != nil && catch == nil && nopts(postTransforms) ==> *pdest(ctx) == old(*defaultVal)
+//@   ensures[C19,C13] present_value_kept: !vabsent(ctx) && catch == nil && nopts(postTransforms) ==> unchanged(*pdest(ctx))
+//@   ensures[C05] catch_never_issues: catch != nil ==> unchanged(p.LC(ctx))
+//@   ensures[C05] catch_value_iff_failed: catch != nil && (!vabsent(ctx) || defaultVal != nil) && nopts(postTransforms) ==> *pdest(ctx) == ite(ctx.Exit, old(*catch), ite(vabsent(ctx), old(*defaultVal), old(*pdest(ctx))))
+//@   ensures[C02] log_append_only: isprefix(old(p.LC(ctx)), p.LC(ctx))
+//@   loop rangeindex.loop#1
+//@     invariant p.wfctx(ctx)
+//@     invariant[C05] not_exited: !ctx.Exit
+//@     invariant[C01,C02] every_test_runs: tf_ran == old(tf_ran) + zz_i
+//@     invariant[C05] catch_silent: catch != nil ==> p.LC(ctx) == old(p.LC(ctx))
+//@     invariant[C02] log_append_only: isprefix(old(p.LC(ctx)), p.LC(ctx))
+
+//@ func primitiveValidator$1()
+//@   requires p.wfctx(ctx) && valPtr != nil && box(valPtr) == ctx.ValPtr
+//@   requires[C06] pts_wf: forall(i, 0, len(postTransforms), postTransforms[i] != nil)
+//@   modifies ctx.Exit, *valPtr, p.recfp(ctx.ExecCtx)
+//@   ensures[C05] catching_is_silent: ctx.CanCatch ==> unchanged(p.LC(ctx))
+//@   ensures[C02] log_append_only: isprefix(old(p.LC(ctx)), p.LC(ctx))
+//@   ensures[C12] skipped_after_issue: old(p.LC(ctx)) != empty() ==> unchanged(p.LC(ctx)) && unchanged(*valPtr) && unchanged(ctx.Exit)
+//@   ensures[C12] no_pts: len(postTransforms) == 0 ==> unchanged(p.LC(ctx)) && unchanged(*valPtr) && unchanged(ctx.Exit)
+//@   ensures[C02] rep: p.zrep(ctx.ExecCtx.Errors)
+//@   loop rangeindex.loop#1
+//@     invariant p.wfctx(ctx) && box(valPtr) == ctx.ValPtr
+//@     invariant[C12] still_no_issue: p.LC(ctx) == empty()
+//@     invariant unchanged(ctx.Exit)
+//@     invariant unchanged(p.LC(ctx))
